@@ -165,6 +165,7 @@ def _native_ddp_hist(world, group, comm, cp, seed, mode):
         gp = torch.Generator().manual_seed(seed)  # NOTE: the global RNG is shared by the simulated ranks (threads): use private generators
         params = [torch.nn.Parameter(torch.randn(s, generator=gp)) for s in shapes]
         opt = DistributedShampoo(params, lr=0.05, betas=(0.9, 0.99), epsilon=1e-6, momentum=0.5, max_preconditioner_dim=maxdim, precondition_frequency=2,
+                                 preconditioner_dtype=(torch.float64 if seed % 2 else torch.float32),  # odd seeds: state dtype != parameter dtype
                                  start_preconditioning_step=2, use_merge_dims=False, grafting_config=st.AdaGradGraftingConfig(epsilon=1e-8), distributed_config=dcfg)
         g = torch.Generator().manual_seed(seed + 1)
         traj = []
